@@ -13,7 +13,7 @@ LEVEL = "exploration"
 WORKERS = {"quick": 8, "thorough": 16}
 BUDGET = {"quick": 150, "thorough": 420}
 MIN_NONTRIVIAL = {"quick": 3000, "thorough": 60000}
-REQUIRED_HOOKS = ["evaluate:I", "evaluate:C", "law", "accessor", "edge-accessor", "duration-text"]
+REQUIRED_HOOKS = ["evaluate:I", "evaluate:C", "law", "accessor", "edge-accessor", "duration-text", "nested-literal"]
 RULE = (
     "Timestamps at microsecond resolution in years 0001-9999 (biased to year/month/leap-day/DST/range boundaries) and durations within +-315,576,000,000 s "
     "are bound as variables; the laws (t+d)-d == t, (t+d)-t == d, t1-t2 == elapsed, d+t, t-d, d1+-d2 are evaluated under both runners and compared with integer "
@@ -259,6 +259,9 @@ def accessor_cases(ck, rnd, n):
             # literal forms too
             lit = Node("meth", "int", name, Node("lit", "ts", ("ts", us)), Node("lit", "string", env["z"]))
             ck.run(name, lit, {}, k, cached=False, zone_kind=zk + "-literal")
+            one = Node("list", ("list", "int"), Node("lit", "int", ("int", 1)))
+            nested = Node("index", "int", Node("macro", ("list", "int"), "map", one, "i", lit), Node("lit", "int", ("int", 0)))
+            ck.run(name, nested, {}, k, cached=False, zone_kind=zk + "-nested-literal")
 
 
 def edge_accessor_cases(ck, rnd, n):
@@ -370,6 +373,19 @@ def duration_cases(ck, rnd, n):
         ck.run("duration(text)", node, {"s": ("string", s)}, kind, tol_us=1 if frac else 0)
         if rnd.random() < 0.1:
             ck.run("duration(text)", Node("call", "dur", "duration", Node("lit", "string", ("string", s))), {}, kind, tol_us=1 if frac else 0, cached=False, zone_kind="literal")
+        if rnd.random() < 0.12 and not big:
+            # the literal conversion NESTED in other constructs (macro body, ?:, ||, list, arithmetic inside a macro body)
+            lit = Node("call", "dur", "duration", Node("lit", "string", ("string", s)))
+            one = Node("list", ("list", "int"), Node("lit", "int", ("int", 1)))
+            forms = [
+                Node("index", "dur", Node("macro", ("list", "dur"), "map", one, "i", lit), Node("lit", "int", ("int", 0))),
+                Node("cond", "dur", Node("lit", "bool", ("bool", True)), lit, lit),
+                Node("index", "dur", Node("list", ("list", "dur"), lit, lit), Node("lit", "int", ("int", 1))),
+                Node("index", "dur", Node("macro", ("list", "dur"), "map", one, "i", Node("index", "dur", Node("macro", ("list", "dur"), "map", one, "j", lit), Node("lit", "int", ("int", 0)))), Node("lit", "int", ("int", 0))),
+                Node("index", "dur", Node("macro", ("list", "dur"), "filter", Node("list", ("list", "dur"), lit), "e", Node("bin", "bool", "==", Node("var", "dur", "e"), lit)), Node("lit", "int", ("int", 0))),
+            ]
+            acc.hook("nested-literal")
+            ck.run("duration(text)", rnd.choice(forms), {}, kind, tol_us=1 if frac else 0, cached=False, zone_kind="nested-literal")
 
 
 def boundary_sweep(ck, ctx):
